@@ -21,6 +21,9 @@ type Permission struct {
 	timeout       time.Duration
 	lifetimeTimer *time.Timer
 	log           logging.LeveledLogger
+	// expiresAt is the deadline in force (set by start and refresh, read by the
+	// expiry under the allocation's permissionsLock).
+	expiresAt time.Time
 }
 
 // NewPermission create a new Permission.
@@ -33,12 +36,14 @@ func NewPermission(addr net.Addr, log logging.LeveledLogger, timeout time.Durati
 }
 
 func (p *Permission) start(lifetime time.Duration) {
+	p.expiresAt = time.Now().Add(lifetime)
 	p.lifetimeTimer = time.AfterFunc(lifetime, func() {
-		p.allocation.RemovePermission(p.Addr)
+		p.allocation.expirePermission(p)
 	})
 }
 
 func (p *Permission) refresh(lifetime time.Duration) {
+	p.expiresAt = time.Now().Add(lifetime)
 	if !p.lifetimeTimer.Reset(lifetime) {
 		p.log.Errorf("Failed to reset permission timer for %v %v", p.Addr, p.allocation.fiveTuple)
 	}
